@@ -1,6 +1,6 @@
 (* C09 - KICK, TOPIC and INVITE obey channel rank.  Statements only; proofs in IRCP.RankP. *)
-From IRC Require Import Str Wild Glob Parse Reply State Handlers.
-From IRCP Require Import RankP BanP JoinP InviteP.
+From IRC Require Import Str Wild Glob Parse Reply State Handlers Step.
+From IRCP Require Import InvDefs RankP BanP JoinP InviteP TopicFrame TopicGlobal MembersFrame InvitedFrame InvitedGlobal.
 From stdpp Require Import gmap.
 
 Section C09.
@@ -118,6 +118,36 @@ Proof. exact refused_join_keeps_invitation. Qed.
 
 End C09.
 
+(* TOPIC IS CHANGED ONLY BY A TOPIC COMMAND, over every event of every connection: a channel that exists before and
+   after a step has the same topic (text and setter) - which is what later TOPIC, LIST and JOIN replies show - unless
+   the event is a registered connection's TOPIC line naming that very channel (which then needs membership, and on +t
+   the rank, by C09_topic).  JOIN, PART, KICK, NICK, MODE and every way a session ends leave the topic alone. *)
+Theorem C09_topic_changes_only_by_topic : forall cfg verify w i e w' o cl,
+  Inv w -> step cfg verify w i e = Ok (w', o, cl) ->
+  forall ch co co', chans (sh w) !! ch = Some co -> chans (sh w') !! ch = Some co' ->
+  ch_topic co' = ch_topic co \/
+  exists c l, conns w !! i = Some c /\ e = EvLine l /\ c_auth c = true /\
+              exists msg t, tokenize l = inl msg /\ command_of_message msg = inl (TOPIC ch t).
+Proof. exact topic_changes_only_by_topic. Qed.
+
+(* INVITE AND NOTHING ELSE GRANTS THE ADMISSION, AND ONLY THE HOLDER'S OWN JOIN USES IT, over every event of every
+   connection: a channel is in a user's pending-invitation set after a step and was not before only if the event is a
+   registered connection's INVITE line naming exactly that user and that channel; a user who stays connected loses a
+   pending invitation only through its own JOIN. *)
+Theorem C09_invitation_gained_only_by_invite : forall cfg verify w i e w' o cl n u' n0 u ch, Inv w -> step cfg verify w i e = Ok (w', o, cl) ->
+  users (sh w') !! n = Some u' -> users (sh w) !! n0 = Some u -> u_conn u = u_conn u' ->
+  ch ∈ u_invited u' -> ch ∉ u_invited u ->
+  exists c l msg, conns w !! i = Some c /\ c_auth c = true /\ e = EvLine l /\ tokenize l = inl msg /\
+                  command_of_message msg = inl (INVITE n ch).
+Proof. exact invitation_gained_only_by_invite. Qed.
+
+Theorem C09_invitation_lost_only_by_own_join : forall cfg verify w i e w' o cl n u' n0 u ch, Inv w -> step cfg verify w i e = Ok (w', o, cl) ->
+  users (sh w') !! n = Some u' -> users (sh w) !! n0 = Some u -> u_conn u = u_conn u' ->
+  ch ∈ u_invited u -> ch ∉ u_invited u' ->
+  u_conn u' = i /\ exists c l msg chs keys, conns w !! i = Some c /\ c_auth c = true /\ e = EvLine l /\ tokenize l = inl msg /\
+                                             command_of_message msg = inl (JOIN chs keys).
+Proof. exact invitation_lost_only_by_own_join. Qed.
+
 Print Assumptions C09_kickable.
 Print Assumptions C09_kick_decision.
 Print Assumptions C09_kick_refused_inert.
@@ -127,3 +157,6 @@ Print Assumptions C09_invite.
 Print Assumptions C09_invitation_admits.
 Print Assumptions C09_invitation_used_once.
 Print Assumptions C09_refused_join_keeps_invitation.
+Print Assumptions C09_topic_changes_only_by_topic.
+Print Assumptions C09_invitation_gained_only_by_invite.
+Print Assumptions C09_invitation_lost_only_by_own_join.
